@@ -84,14 +84,16 @@ def group_pool(g):
 
 def sentinel_free(seq):
     """no init / calculator of a group on a table after an assignment of the sentinel in that group"""
-    assigned = set()
+    assigned, mutated = set(), set()
     for e in seq:
         if e[0] == "set":
             assigned.add((e[1], GROUP_OF[e[3]]))
+        if e[0] == "mut":
+            mutated.add((e[1], GROUP_OF[e[3]]))
         if e[0] == "init" and (e[2], KEYS[e[1]]) in assigned:
             return False
-        if e[0] == "calc" and any((e[2], g) in assigned for g in CALC_GROUPS[e[1]]):
-            return False
+        if e[0] == "calc" and any((e[2], g) in assigned | mutated for g in CALC_GROUPS[e[1]]):
+            return False        # computed from the table's own overwritten data: its own business
     return True
 
 
@@ -188,13 +190,15 @@ if len(sys.argv) > 3:
     nrand = int(sys.argv[3])
 for _ in range(nrand):
     L = rng.randint(3, rlen)
-    ev, assigned = [], set()
+    ev, assigned, mutated = [], set(), set()
     while len(ev) < L:
         e = rng.choice(ALPHA)
         if e[0] == "set":
             assigned.add((e[1], GROUP_OF[e[3]]))
-        if e[0] == "calc" and any((e[2], g) in assigned for g in CALC_GROUPS[e[1]] + ["base"]):
-            continue        # a calculator fed with the sentinel value: outside the model
+        if e[0] == "mut":
+            mutated.add((e[1], GROUP_OF[e[3]]))
+        if e[0] == "calc" and any((e[2], g) in assigned | mutated for g in CALC_GROUPS[e[1]] + ["base"]):
+            continue        # a calculator fed with the sentinel / the table's own overwritten arrays: outside the model
         if e[0] == "init" and ((e[2], KEYS[e[1]]) in assigned or (e[2], "base") in assigned):
             continue        # a loader fed with the sentinel value (it expects a dict / list / number there)
         if e[0] in ("read", "has", "mut") and GROUP_OF[e[3]] == "base" and (e[1], "base") in assigned:
@@ -259,6 +263,7 @@ for h, res in zip(histories, results):
 
 def signature(m, o):
     f, before = m[-1], m[:-1]
+    places = None
     grp = set(event_groups(f))
     X = f[1] if f[0] in ("read", "has", "parse", "pickle") else (f[2] if f[0] == "calc" else "pub")
     same = lambda x: bool(set(event_groups(x)) & grp)
@@ -270,6 +275,12 @@ def signature(m, o):
         return "C10:%s-leaves-table" % f[0]
     if muts:
         n = muts[0][3]
+        places = foreign_mark_places(m, X) if f[0] == "read" else []
+        if places and "" not in places:
+            # the served object is the table's own, something below it is not
+            return "C10:mutation-leaks:%s.%s" % (f[3], places[0].split(".")[0].split("[")[0] or places[0])
+        if f[0] == "calc":
+            return "C10:mutation-leaks:%s" % n
         return {"crystal_structure": "C10:crystal_structure-dict-shared",
                 "neutron": "C10:neutron-default-object-shared"}.get(n, "C10:%s-object-shared" % n)
     if sets:
